@@ -20,8 +20,8 @@ theorem DLog.client_start (s0 : Nat) : ∀ a ∈ clStart s0, DLog.Kept a := by
   all_goals (try (simp at hg; done))
   all_goals (repeat' split)
   all_goals (intro hf he hm)
-  all_goals (first | (cases hm; done) | (obtain ⟨k1, k2, k3, k4, k5, k6, k7, k8, k9, k10, k11, k12, k13⟩ := hU _ hf he hm) | (trace_state; sorry))
-  all_goals (first | (obtain ⟨d1, d2, d3, d4⟩ := h _ hf he hm) | (trace_state; sorry))
+  all_goals (first | (cases hm; done) | (obtain ⟨k1, k2, k3, k4, k5, k6, k7, k8, k9, k10, k11, k12, k13⟩ := hU _ hf he hm))
+  all_goals (first | (obtain ⟨d1, d2, d3, d4⟩ := h _ hf he hm))
   all_goals (
     have hn1 := nrd_pos k3
     have hrm0 := cv_rmap0 k1 hn1
@@ -35,6 +35,6 @@ theorem DLog.client_start (s0 : Nat) : ∀ a ∈ clStart s0, DLog.Kept a := by
   all_goals constructor
   all_goals (try dsimp only)
   all_goals (repeat' split)
-  all_goals (first | assumption | ((try simp only [logpos, snkHold, srcHold, clHolds0, clFlush1, clFlush1Free, AllDone] at *) <;> (try simp only [stage, stopStage] at ⊢) <;> grind [stage, stopStage, afterErrStop, framesIn_zero]) | (trace_state; sorry))
+  all_goals (first | assumption | ((try simp only [logpos, snkHold, srcHold, clHolds0, clFlush1, clFlush1Free, AllDone] at *) <;> (try simp only [stage, stopStage] at ⊢) <;> grind [stage, stopStage, afterErrStop, framesIn_zero]))
 
 end AcqVerif.Runtime
